@@ -76,22 +76,30 @@ def make_class(mode, shape, creator, reg, server):
     return cls
 
 
+REREG = ("by-object", "by-id", "displaced")
+
+
 def histories(maxlen, nconn):
     """valid histories in canonical form (connections are introduced in index order)"""
     out = []
 
-    def rec(h, opened, closed, used):
+    def rec(h, opened, closed, used, rereg=False):
         out.append(list(h))
         if len(h) >= maxlen:
             return
+        if not rereg and len(h) < maxlen - 1:
+            # the class is unregistered and registered again under the same id (at most once per history): the daemon and the
+            # open connections stay, so the instances that serve them stay as well
+            for kind in REREG:
+                rec(h + [("rereg", kind)], opened, closed, used, True)
         for i in range(min(used + 1, nconn)):
             if i not in opened and i not in closed:
                 if i <= used:
-                    rec(h + [("open", i)], opened | {i}, closed, max(used, i + 1) if i == used else used)
+                    rec(h + [("open", i)], opened | {i}, closed, max(used, i + 1) if i == used else used, rereg)
             elif i in opened:
-                rec(h + [("call", i)], opened, closed, used)
-                rec(h + [("close", i)], opened - {i}, closed | {i}, used)
-                rec(h + [("reset", i)], opened - {i}, closed | {i}, used)     # abortive end (peer reset)
+                rec(h + [("call", i)], opened, closed, used, rereg)
+                rec(h + [("close", i)], opened - {i}, closed | {i}, used, rereg)
+                rec(h + [("reset", i)], opened - {i}, closed | {i}, used, rereg)     # abortive end (peer reset)
     rec([], frozenset(), frozenset(), 0)
     return out
 
@@ -129,7 +137,21 @@ def run_histories(unit):
             all_serials = []
             for op, i in h:
                 st.points += 1
-                if op == "open":
+                if op == "rereg":
+                    try:
+                        if i == "by-object":
+                            d.unregister(cls)
+                            d.register(cls, "obj")
+                        elif i == "by-id":
+                            d.unregister("obj")
+                            d.register(cls, "obj")
+                        else:
+                            d.register(server.expose(type("Other", (object,), {})), "obj", force=True)
+                            d.register(cls, "obj", force=True)
+                    except Exception as x:
+                        V("re-registration-failed|%s|%s" % (i, type(x).__name__), "%r" % x, h)
+                        break
+                elif op == "open":
                     proxies[i] = client.Proxy(uri)
                     proxies[i]._pyroBind()
                 elif op in ("close", "reset"):
@@ -319,12 +341,19 @@ def make_sched_run(cfg):
             d = server.Daemon(host="h", port=1)
             conns = [FakeConn() for _ in range(cfg["threads"])] if not cfg.get("same_conn") else [FakeConn()] * cfg["threads"]
             results = {}
+            failed = []
 
             def body(i):
                 def f():
                     out = []
                     for _ in range(cfg["calls"]):
-                        inst = d._getInstance(cls, conns[i])
+                        try:
+                            inst = d._getInstance(cls, conns[i])
+                        except RuntimeError as x:
+                            if "creator fails" not in str(x):
+                                raise
+                            failed.append(i)       # the creator's own failure reaches the caller whose call triggered it
+                            continue
                         out.append(inst.serial)
                     results[i] = out
                 return f
@@ -344,6 +373,10 @@ def make_sched_run(cfg):
                     V("single-mode-several-instances|concurrent", "calls were served by instances %r, %d constructed" % (serials, reg.serial))
                 if cfg["creator"] == "counting" and reg.creator_calls != 1:
                     V("creator-call-count|single|concurrent", "creator called %d times" % reg.creator_calls)
+                if cfg["creator"] == "fails_first":
+                    if reg.creator_calls != reg.serial + reg.creator_failures or len(failed) != reg.creator_failures:
+                        V("creator-call-count|single|concurrent|failing-creator", "creator called %d times, %d failed, %d instances constructed, %d calls failed"
+                          % (reg.creator_calls, reg.creator_failures, reg.serial, len(failed)))
             elif cfg["mode"] == "session":
                 for i, r in results.items():
                     if len(set(r)) != 1:
@@ -353,7 +386,7 @@ def make_sched_run(cfg):
                     V("session-instance-shared|concurrent", "%r" % results)
                 if cfg.get("same_conn") and False:
                     pass
-            return {"outcome": repr((outcome, sorted(results.items()), reg.serial, reg.creator_calls)), "violations": violations,
+            return {"outcome": repr((outcome, sorted(results.items()), reg.serial, reg.creator_calls, sorted(failed))), "violations": violations,
                     "sample": {"cfg": cfg, "results": sorted(results.items())}}
         finally:
             sch.teardown()
@@ -385,6 +418,9 @@ def run(ctx):
         for creator in ("none", "counting"):
             scfgs.append({"mode": "single", "shape": shape, "creator": creator, "threads": 2, "calls": 2, "p": 2 if quick else 3, "r": 10 ** 6})
             scfgs.append({"mode": "single", "shape": shape, "creator": creator, "threads": 3, "calls": 1, "p": 2, "r": 4 if quick else 8})
+    # a creator that fails the first time it is called: the caller that triggered it gets the error, the others still share one instance
+    scfgs.append({"mode": "single", "shape": "truthy", "creator": "fails_first", "threads": 2, "calls": 2, "p": 2 if quick else 3, "r": 10 ** 6})
+    scfgs.append({"mode": "single", "shape": "truthy", "creator": "fails_first", "threads": 3, "calls": 1, "p": 2, "r": 4 if quick else 8})
     scfgs.append({"mode": "session", "shape": "truthy", "creator": "counting", "threads": 2, "calls": 2, "p": 2, "r": 10 ** 6})
     sst = explore_parallel(ctx, sched_task, scfgs, lambda c: c["p"], lambda c: c["r"])
     total.violations.extend(sst.violations)
